@@ -68,6 +68,18 @@ def main():
             res["check_rc"] = rc
             res["violation_lines"] = [l for l in out.split("\n") if l.startswith("VIOLATION")]
             res["caught"] = rc == 1 and any(l.startswith(f"VIOLATION property={prop}") for l in res["violation_lines"])
+            # a change seeded against one property may really break a clause owned by another property's check
+            for other in meta.get("also_properties", []):
+                if res["caught"]:
+                    break
+                rc2, out2 = sh([os.path.join(ROOT, "check"), other, "--tier", tier], cwd=ROOT, env=env, timeout=7200)
+                v2 = [l for l in out2.split("\n") if l.startswith("VIOLATION")]
+                res.setdefault("other_checks", {})[other] = {"rc": rc2, "violation_lines": v2}
+                if rc2 == 1 and any(l.startswith(f"VIOLATION property={other}") for l in v2):
+                    res["caught"] = True
+                    res["caught_by"] = other
+                    res["violation_lines"] = v2
+                    out = out2
             res["no_failing_input_found"] = any("no-failing-input-found" in l for l in res["violation_lines"])
             res["wall_s"] = round(time.time() - t0, 1)
             res["tail"] = out[-600:]
